@@ -16,21 +16,26 @@ META = {
                   "string of the value's real length (1..8 bytes; strings 24 and 60 bytes) is pushed through "
                   "the real from_list / check_raw / raw_to_value; per path z3 shows it never raises and that "
                   "kind (value / MASK / TMASK / Invalid) and value equal a reference decoder built from the "
-                  "independently transcribed layout table (encoding kind, scale, offset, width) and the "
-                  "class's MASK/TMASK/min/max declarations; value_to_raw/raw_to_value round trips for "
+                  "independently transcribed layout table (encoding kind, scale, offset, width) and flag "
+                  "table (MASK/TMASK support, limits, signedness); the same for synthetic signed values "
+                  "declared through the library's metaclass; value_to_raw/raw_to_value round trips for "
                   "symbolic in-range numbers and symbolic ASCII strings; the whole declared map is compared "
                   "with the table (bank, first location, width, memory type, lock byte), overlaps included.",
     "level_note": "Trusted: layout transcription in /verif/spec/memory_map.py (IEC 62386-102 9.10.6, DiiA "
-                  "251-253); which values support MASK/TMASK and their min/max are taken from the class "
-                  "declarations (unasserted - the check shows they are applied exactly, not that they are the "
-                  "standard's); z3/cvc5; symx semantics incl. int.from_bytes/to_bytes, bytes.split/decode and "
+                  "251-253) incl. the flag table FLAGS (cells the transcriber could not recall independently "
+                  "pin the library's behaviour at the pinned commit); z3/cvc5; symx semantics incl. int.from_bytes/to_bytes, bytes.split/decode and "
                   "int*Decimal text tokens (each path re-run concretely).",
     "explanation": "symbolic execution of MemoryValue.from_list/check_raw/is_valid/raw_to_value/value_to_raw",
     "bounds": ["every declared value with all bytes symbolic (numbers up to 8 bytes = 2^64 values; strings "
                "of 24 and 60 symbolic bytes)", "inverse direction: symbolic in-range numbers, symbolic ASCII "
-               "strings of every length 0..field width (quick: 0..8 and the full width)"],
+               "strings of every length 0..field width (quick: 0..8 and the full width)",
+               "MASK/TMASK support, limits and (un)signedness of every value compared with the flag table "
+               "spec/memory_map.FLAGS; the reference decoder uses the table, not the class",
+               "18 synthetic numeric values declared by the harness through the library's metaclass: signed "
+               "and unsigned, 1..3 bytes, with MASK+TMASK / TMASK+limit / limits only (sign-aware patterns)"],
     "stubs": ["isinstance/int/bytes/pow shims", "SymBytes split/decode, SymStr encode"],
-    "outside": ["MASK/TMASK support flags and min/max limits per value (taken from the class)",
+    "outside": ["independence of the flag table: cells the transcriber could not recall were taken over from "
+                "the library at the pinned commit (they pin the behaviour)",
                 "Decimal arithmetic beyond int x Decimal factor"],
     "assumptions": [],
 }
